@@ -61,6 +61,13 @@ var (
 				return cty.UnknownVal(cty.Bool).RefineNotNull(), lhsDiags
 			case !rhs.IsKnown() && !lhs.IsNull() && lhs.False():
 				return cty.UnknownVal(cty.Bool).RefineNotNull(), rhsDiags
+
+			// a null operand is an error only if the other side does not turn
+			// out to be the controlling true, which we can't know yet
+			case !lhs.IsKnown() && rhs.IsNull():
+				return cty.UnknownVal(cty.Bool).RefineNotNull(), lhsDiags
+			case !rhs.IsKnown() && lhs.IsNull():
+				return cty.UnknownVal(cty.Bool).RefineNotNull(), rhsDiags
 			}
 
 			return cty.NilVal, nil
@@ -97,6 +104,13 @@ var (
 			case !lhs.IsKnown() && rhs.True():
 				return cty.UnknownVal(cty.Bool).RefineNotNull(), lhsDiags
 			case !rhs.IsKnown() && lhs.True():
+				return cty.UnknownVal(cty.Bool).RefineNotNull(), rhsDiags
+
+			// a null operand is an error only if the other side does not turn
+			// out to be the controlling false, which we can't know yet
+			case !lhs.IsKnown() && rhs.IsNull():
+				return cty.UnknownVal(cty.Bool).RefineNotNull(), lhsDiags
+			case !rhs.IsKnown() && lhs.IsNull():
 				return cty.UnknownVal(cty.Bool).RefineNotNull(), rhsDiags
 			}
 			return cty.NilVal, nil
